@@ -3,6 +3,7 @@
 Decides table/shape agreement of the two halves of brine (R04.1-R04.7); round-trip equality of
 runtime values is not decided (struct/codec behaviour is trusted)."""
 import ast
+import builtins
 import struct
 
 from .. import astutil as A
@@ -42,7 +43,11 @@ class Model:
             self.n_load_funcs += 1
             if t in self.loaders:
                 self.loader_dups.append((t, self.loaders[t][0], fn))
-            self.loaders[t] = (fn, B.simplify(B.LoadExec(ctx).run(fn)))
+            try:
+                self.loaders[t] = (fn, B.simplify(B.LoadExec(ctx).run(fn)))
+            except AnalysisError as e_:
+                # not summarisable: the rows that need this loader's shape are undecided, the other rules still run
+                self.loaders[t] = (fn, ("unknown", str(e_)))
 
     def samples(self, t):
         """valuations that exercise every guard outcome of the dumper for type t (exact for interval guards:
@@ -563,6 +568,10 @@ def run(ctx, rep, model=None):
                        ctx.loc(p.nodes[0]))
                 continue
             lfn, term = ld
+            if term[0] == "unknown":
+                rep.undecided("R04.3", key, term[1])
+                checked_tags.add(tag)
+                continue
             same = term_eq(term, exp)
             if t is str and same is False and term[0] == "decode" and exp[0] == "decode":
                 pass
@@ -622,6 +631,9 @@ def run(ctx, rep, model=None):
             d = A.call_name(c)
             if d in allowed_ext:
                 continue
+            if isinstance(getattr(c, "_parent", None), ast.Raise) and d and isinstance(getattr(builtins, d, None), type) and \
+                    issubclass(getattr(builtins, d), BaseException):
+                continue          # refusing a malformed stream: building the exception that is raised
             if d is None and isinstance(c.func, ast.Call):
                 # registry dispatch handled as resolved; a bare `.get(tag)(stream)` is resolved above
                 bad_calls.append((c, "indirect call `%s`" % A.src(c)[:50]))
